@@ -40,6 +40,11 @@ Record call := mkCall {
   c_xid : N; c_rpcvers : N; c_prog : N; c_vers : N; c_proc : N;
   c_cred_flavor : N; c_cred_body : bytes; c_verf_flavor : N; c_verf_body : bytes }.
 
+Definition call_eqb (a b : call) : bool :=
+  (c_xid a =? c_xid b) && (c_rpcvers a =? c_rpcvers b) && (c_prog a =? c_prog b) && (c_vers a =? c_vers b) &&
+  (c_proc a =? c_proc b) && (c_cred_flavor a =? c_cred_flavor b) && bytes_eqb (c_cred_body a) (c_cred_body b) &&
+  (c_verf_flavor a =? c_verf_flavor b) && bytes_eqb (c_verf_body a) (c_verf_body b).
+
 Definition enc_call (c : call) : bytes :=
   enc_u32 (c_xid c) ++ enc_u32 rpc_call ++ enc_u32 (c_rpcvers c) ++ enc_u32 (c_prog c) ++
   enc_u32 (c_vers c) ++ enc_u32 (c_proc c) ++
@@ -62,6 +67,10 @@ Definition dec_call : dec call :=
 
 (* ---- AUTH_SYS body (byteReader over a slice) ---- *)
 Record authsys := mkAuthSys { a_stamp : N; a_machine : bytes; a_uid : N; a_gid : N; a_gids : list N }.
+
+Definition authsys_eqb (a b : authsys) : bool :=
+  (a_stamp a =? a_stamp b) && bytes_eqb (a_machine a) (a_machine b) && (a_uid a =? a_uid b) &&
+  (a_gid a =? a_gid b) && bytes_eqb (a_gids a) (a_gids b).
 
 Definition enc_authsys (a : authsys) : bytes :=
   enc_u32 (a_stamp a) ++ enc_opaque (a_machine a) ++ enc_u32 (a_uid a) ++ enc_u32 (a_gid a) ++
